@@ -475,8 +475,8 @@ def stepRoute (st : RouteState) (toks : List String) : RouteState × String :=
         | _ => (st, "model-unknown")
       | "wasm-gen", _ =>
         match app.comp .wasm with
-        | .supplied (.wasm n) => (st, toString n)
-        | .const _ => (st, "default")
+        | .supplied (.wasm n) => (st, toString n ++ "/" ++ toString n)
+        | .const _ => (st, "default/default")
         | _ => (st, "model-unknown")
       | _, _ => (st, "bad-op")
   | [] => (st, "bad-op")
